@@ -26,11 +26,28 @@ def _clang_json(repo: Repo, defines: Tuple[str, ...]) -> Dict[str, Any]:
     src = repo.path(C_RT)
     if not src.exists():
         raise Inconclusive(f"anchor file missing: {C_RT}")
-    cmd = ["clang", "-fsyntax-only", "-Xclang", "-ast-dump=json", "-I", str(repo.path("lib/c"))] + [f"-D{d}" for d in defines] + [str(src)]
+    inc = str(repo.path("lib/c"))
+    tmpdir = None
+    if C_RT in repo.overlay or C_H in repo.overlay:
+        # materialise the variant outside /repo and /verif; removed right after
+        import tempfile
+
+        tmpdir = tempfile.mkdtemp(prefix="verif-c-")
+        for rel in (C_RT, C_H):
+            with open(f"{tmpdir}/{rel.split('/')[-1]}", "w") as fh:
+                fh.write(repo.src(rel))
+        src = __import__("pathlib").Path(tmpdir) / "bitproto.c"
+        inc = tmpdir
+    cmd = ["clang", "-fsyntax-only", "-Xclang", "-ast-dump=json", "-I", inc] + [f"-D{d}" for d in defines] + [str(src)]
     try:
         p = subprocess.run(cmd, capture_output=True, timeout=120)
     except (OSError, subprocess.TimeoutExpired) as e:
         raise Inconclusive(f"clang not runnable: {e}")
+    finally:
+        if tmpdir:
+            import shutil
+
+            shutil.rmtree(tmpdir, ignore_errors=True)
     if p.returncode != 0 or not p.stdout:
         raise Inconclusive(f"{C_RT} does not compile with {defines}: {p.stderr.decode()[:300]}")
     return json.loads(p.stdout)
